@@ -258,6 +258,9 @@ SPECIAL = {"f32": [0, 0x80000000, 0x7FC00000, 0x7F800000, 0x3F800000],
 def gen_scalar(r, tag):
     lo, hi = RANGE[tag]
     k = r.random()
+    if tag == "c8" and k < 0.04:
+        # outside the ASCII fragment of the theorems: char::to_string() writes UTF-8 (model: utf8)
+        return r.choice([128, 233, 0x7FF, 0x800, 0x20AC, 0xFFFF, 0x10000, 0x1F600, 0x10FFFF])
     if k < 0.25:
         return r.choice([lo, hi, 0, 1, min(hi, 2), max(lo, -1)])
     if k < 0.35 and tag in SPECIAL:
